@@ -44,12 +44,12 @@ def api_jobs(tier, fns=(1, 2, 3, 4), group_prefix="rs_api"):
 def ldpc_jobs(tier, seed, prop="C10", pfx="c10"):
     ld = lbc.c03_jobs(tier, seed, prop=prop, prefix=pfx + "ml", group_prefix="lbc_status_finish") + lbc.c04_jobs(tier, seed, prop=prop, prefix=pfx + "it", group_prefix="lbc_status_stream")
     if tier == "quick":   # a slice here; the whole families run under C03 / C04
-        ld = [j for i, j in enumerate(ld) if i % 4 == 0]
+        ld = [j for j in ld if lbc.pick(j.name, 4, 0)]
     else:
-        ld = [j for i, j in enumerate(ld) if i % 3 == 1]
+        ld = [j for j in ld if lbc.pick(j.name, 3, 1)]
     # completion / status clauses with callbacks registered (the callback paths store the symbols differently)
     cb = lbc.cb_jobs(tier, seed, prop=prop, prefix=pfx + "cb", group_prefix="lbc_status_callbacks")
-    return ld + (cb if tier != "quick" else [j for i, j in enumerate(cb) if i % 2 == 0])
+    return ld + (cb if tier != "quick" else [j for j in cb if lbc.pick(j.name, 2, 0)])
 
 
 def jobs(tier, seed):
